@@ -22,7 +22,10 @@ if REPO not in sys.path:
 os.environ.setdefault("PYTHONHASHSEED", "0")
 
 SPECS = os.path.join(VERIF, "specs")
-EVIDENCE_DIR = os.path.join(VERIF, "evidence")
+# evidence and replays describe /repo; when the machinery tests itself against a scratch copy
+# (VERIF_REPO=...) they go next to that copy instead, so the committed evidence is never polluted
+_SELF_TEST = os.path.realpath(REPO) != os.path.realpath("/repo")
+EVIDENCE_DIR = os.path.join(REPO, ".verif-evidence") if _SELF_TEST else os.path.join(VERIF, "evidence")
 REPLAY_DIR = os.path.join(VERIF, "replays")
 KNOWN_FINDINGS = os.path.join(VERIF, "known_findings.json")
 
